@@ -177,7 +177,7 @@ EvStmts(ss, i, f, st, dfs, last) ==
               ELSE LET c == Ev(s.g, f, st) IN IF c.k # "val" THEN c ELSE Truthy(c.v, c.st)
      IN IF g.k # "val" THEN [r |-> g, dfs |-> dfs]
         ELSE IF ~g.v.b THEN EvStmts(ss, i + 1, f, g.st, dfs, NilV)
-        ELSE IF s.k = "defer" THEN EvStmts(ss, i + 1, f, g.st, Append(dfs, s.x), DeferV)
+        ELSE IF s.k = "defer" THEN EvStmts(ss, i + 1, f, g.st, Append(dfs, s.x), NilV)          \* a defer statement has no value of its own
         ELSE LET x == Ev(s.x, f, g.st) IN
              IF x.k # "val" THEN [r |-> x, dfs |-> dfs]
              ELSE IF s.k = "return" THEN [r |-> R("ret", x.v, x.st), dfs |-> dfs]
